@@ -13,4 +13,5 @@ CONSTANTS
   RemoveCancels = FALSE
   CycleSkipsLocked = FALSE
   OfferSkipsLocked = FALSE
+  OfferSkipsOccupied = FALSE
 CHECK_DEADLOCK FALSE
